@@ -67,6 +67,8 @@ func runC20(c *Ctx, r *Report) {
 	r.Doc("R-C20.2", "CreateKey: cache.Add and the success return are dominated by the nil edge of store.Put's error")
 	r.Doc("R-C20.3", "CreateKey is called only on the failure edge of GetKey for the same id")
 	r.Doc("R-C20.4", "SignIdentity signs exactly the published public key and id signature; its result is the published public-key signature")
+	r.Doc("control", "engine positive/negative controls analysed on every run")
+	c208(c, r)
 
 	ks := p.Named("keystore", "Keystore")
 	nMeth := 0
@@ -212,6 +214,32 @@ func runC20(c *Ctx, r *Report) {
 			}
 		})
 	}
+	// what is handed to the datastore is not written afterwards (or before the store copies it): datastores
+	// may keep the caller's slice
+	nput := 0
+	for i := 0; i < ks.NumMethods(); i++ {
+		fn := p.ByObj[ks.Method(i)]
+		if fn == nil {
+			continue
+		}
+		sf := p.SSAFunc(fn)
+		allInstrs(sf, true, func(ins ssa.Instruction) {
+			call, ok := ins.(*ssa.Call)
+			if !ok || !call.Call.IsInvoke() || call.Call.Method.Name() != "Put" || len(call.Call.Args) < 3 {
+				return
+			}
+			v := call.Call.Args[2]
+			if _, isSlice := v.Type().Underlying().(*types.Slice); !isSlice {
+				return
+			}
+			nput++
+			w := writerOf(p, v, sf)
+			r.Check(w == "", "R-C20.7", r.Key("R-C20.7", fn, "stored-bytes-untouched", ""), call.Pos(),
+				"the byte slice handed to the datastore is never written by the keystore",
+				"the key bytes handed to the datastore are also written "+w+": a datastore that keeps the caller's slice (the in-memory map datastore does) then holds different bytes than the key that was created — a second keystore, or this one after eviction, reads another key for the same id")
+		})
+	}
+	r.Floor("R-C20.7", "datastore writes of key bytes", nput, 1)
 	r.Floor("R-C20.5", "cache insertions in the keystore", nAddAll, 2)
 	r.Check(mutableCached == "" || byteWrites == "", "R-C20.7", r.Key("R-C20.7", nil, "immutable-key-bytes", ""), token.NoPos,
 		"the cache holds immutable encodings (strings) and/or nothing in the package writes into byte slices",
@@ -550,4 +578,161 @@ func orDisjuncts(e ast.Expr) []ast.Expr {
 		return append(orDisjuncts(be.X), orDisjuncts(be.Y)...)
 	}
 	return []ast.Expr{e}
+}
+
+// varLenBigInt: uses of (*big.Int).Bytes in fn whose result is not merely measured (len) or right-aligned into
+// a buffer (copy): concatenating it produces a shorter key whenever the number has a leading zero byte.
+func varLenBigInt(p *Prog, sf *ssa.Function) []ssa.Instruction {
+	var out []ssa.Instruction
+	allInstrs(sf, true, func(ins ssa.Instruction) {
+		call, ok := ins.(*ssa.Call)
+		if !ok {
+			return
+		}
+		cal := call.Call.StaticCallee()
+		if cal == nil || cal.String() != "(*math/big.Int).Bytes" {
+			return
+		}
+		bad := false
+		var walk func(v ssa.Value, depth int)
+		walk = func(v ssa.Value, depth int) {
+			refs := v.Referrers()
+			if refs == nil || depth > 4 {
+				return
+			}
+			for _, ref := range *refs {
+				switch u := ref.(type) {
+				case *ssa.Call:
+					if b, ok := u.Call.Value.(*ssa.Builtin); ok && (b.Name() == "len" || b.Name() == "copy") {
+						continue
+					}
+					bad = true
+				case *ssa.Slice:
+					walk(u, depth+1)
+				case *ssa.DebugRef:
+				case *ssa.Phi:
+					walk(u, depth+1)
+				case *ssa.Store:
+					// into a local cell: follow the loads
+					if a, ok := u.Addr.(*ssa.Alloc); ok {
+						if rr := a.Referrers(); rr != nil {
+							for _, x := range *rr {
+								if ld, ok := x.(*ssa.UnOp); ok && ld.Op == token.MUL {
+									walk(ld, depth+1)
+								}
+							}
+						}
+						continue
+					}
+					bad = true
+				default:
+					bad = true
+				}
+			}
+		}
+		walk(call, 0)
+		if bad {
+			out = append(out, call)
+		}
+	})
+	return out
+}
+
+func c208(c *Ctx, r *Report) {
+	p := c.P
+	r.Doc("R-C20.8", "key and identity bytes are fixed-width: no variable-length big-integer encoding ((*big.Int).Bytes) is concatenated into them (a coordinate with a leading zero byte would yield a shorter, different key for the same identity)")
+	n, nf := 0, 0
+	for _, fn := range p.Fns {
+		pk := fn.Pkg.PkgPath
+		if pk != p.pkgPath("identityprovider") && pk != p.pkgPath("keystore") || fn.Orig != nil || fn.Lit != nil {
+			continue
+		}
+		sf := p.SSAFunc(fn)
+		if sf == nil {
+			continue
+		}
+		nf++
+		for _, ins := range varLenBigInt(p, sf) {
+			n++
+			r.Violate("R-C20.8", r.Key("R-C20.8", fn, "variable-length", "big.Int.Bytes"), ins.Pos(), "the variable-length encoding (*big.Int).Bytes() is appended/returned as key material: for the one key in 128 whose coordinate starts with a zero byte the published public key is shorter than the fixed 65 bytes, does not parse, and no signature of that identity verifies")
+		}
+	}
+	if n == 0 {
+		r.Hold("R-C20.8", r.Key("R-C20.8", nil, "no-variable-length-encoding", ""), token.NoPos, true, fmt.Sprintf("no (*big.Int).Bytes() result flows into key material in %d identity/keystore functions", nf))
+	}
+	r.Floor("R-C20.8", "identity/keystore functions scanned", nf, 10)
+	// engine control: the rule fires on the concatenating example and stays quiet on the padded ones
+	if c.Ctl != nil {
+		got := map[string]bool{}
+		for _, name := range []string{"BadAppendBytes", "GoodCopyPadded", "GoodFillBytes"} {
+			fn := c.Ctl.Func("", "", name)
+			if len(varLenBigInt(c.Ctl, c.Ctl.SSAFunc(fn))) > 0 {
+				got[name] = true
+			}
+		}
+		ok := got["BadAppendBytes"] && !got["GoodCopyPadded"] && !got["GoodFillBytes"]
+		r.Check(ok, "control", r.Key("control", nil, "engine-control", "variable-length-encoding"), token.NoPos, "the variable-length rule fires on exactly the concatenating control", fmt.Sprintf("variable-length control mismatch (checker defect): %v", got))
+	}
+}
+
+// writesIntoParam: the function stores into the elements of its i-th parameter (directly, through copy/clear, or
+// by passing it on to a first-party function that does).
+func writesIntoParam(p *Prog, g *ssa.Function, i int, depth int) bool {
+	if g == nil || len(g.Blocks) == 0 || i >= len(g.Params) || depth > 3 {
+		return false
+	}
+	return writerOf2(p, g.Params[i], g, depth+1) != ""
+}
+
+func writerOf(p *Prog, v ssa.Value, sf *ssa.Function) string { return writerOf2(p, v, sf, 0) }
+
+// writerOf2 describes a write into the elements of slice value v within sf ("" when there is none).
+func writerOf2(p *Prog, v ssa.Value, sf *ssa.Function, depth int) string {
+	same := func(x ssa.Value) bool {
+		for k := 0; k < 4 && x != nil; k++ {
+			if x == v {
+				return true
+			}
+			switch y := x.(type) {
+			case *ssa.Slice:
+				x = y.X
+			case *ssa.ChangeType:
+				x = y.X
+			default:
+				return false
+			}
+		}
+		return false
+	}
+	out := ""
+	allInstrs(sf, true, func(ins ssa.Instruction) {
+		switch x := ins.(type) {
+		case *ssa.Store:
+			if ia, ok := x.Addr.(*ssa.IndexAddr); ok && same(ia.X) {
+				out = "element by element at " + p.Pos(x.Pos())
+			}
+		case ssa.CallInstruction:
+			cc := x.Common()
+			if b, ok := cc.Value.(*ssa.Builtin); ok {
+				if (b.Name() == "copy" || b.Name() == "clear") && len(cc.Args) > 0 && same(cc.Args[0]) {
+					out = "by " + b.Name() + " at " + p.Pos(x.Pos())
+				}
+				return
+			}
+			g := cc.StaticCallee()
+			if g == nil || !p.firstParty(calleePkg(g)) {
+				return
+			}
+			for ai, a := range cc.Args {
+				if same(a) && writesIntoParam(p, g, ai, depth) {
+					kind := "by the call"
+					if _, isDefer := x.(*ssa.Defer); isDefer {
+						kind = "by the deferred call"
+					}
+					out = kind + " of " + g.Name() + " at " + p.Pos(x.Pos())
+				}
+			}
+		}
+	})
+	return out
 }
